@@ -1,0 +1,14 @@
+//go:build verif
+
+package common
+
+import "sync/atomic"
+
+// Verification hooks (build tag "verif" only). Add-only.
+
+// VerifSetXidCounter stores v in the process-wide transaction-id counter, so
+// that a check can start it just below the 32-bit wrap.
+func VerifSetXidCounter(v uint32) { atomic.StoreUint32(&messageXid, v) }
+
+// VerifXidCounter loads the current value of the counter.
+func VerifXidCounter() uint32 { return atomic.LoadUint32(&messageXid) }
